@@ -41,6 +41,13 @@ theorem plan_spellings_complete :
 example : PlanT.ofSpelling? "difflog" = PlanT.ofSpelling? "diff_log" ∧ PlanT.ofSpelling? "level" = some PlanT.none
     ∧ PlanT.ofSpelling? "diflog" = none := by decide
 
+/-- `slatable_for_simulate`: the parameter block tests `parameters_from_data`, the residual block tests `shocks_from_data`,
+the defaults are False / True, and a missing residual is 0 -/
+theorem data_source_options_in_code :
+    Explanatory.parameterBlockOption = "parameters_from_data" ∧ Explanatory.residualBlockOption = "shocks_from_data"
+      ∧ Explanatory.parametersFromDataDefault = false ∧ Explanatory.shocksFromDataDefault = true
+      ∧ Explanatory.defaultResidualIsZero = true := by decide
+
 /-- `Explanatory.simulate` is the single statement `data[lhs, t] = eval_level(data, t)` -/
 theorem simulate_statements : Explanatory.simulateSteps = [3] := by decide
 
@@ -1077,5 +1084,45 @@ end object
 example : sourceAfter [.reorder [1, 0], .copy, .simulate, .reorder [1, 0]] lagOfLater = lagOfLater := rfl
 example : Function.Injective (fun n : Nat => n + 10) := fun a b h => by simp only at h; omega
 example : reorderList [2, 0, 1] ["a", "b", "c"] = ["c", "a", "b"] := by decide
+
+/-! ## 14. Where parameters and residuals come from: the two data-source options -/
+
+section options
+variable {β : Type} [Carrier β]
+
+/-- **parameters come from the databox iff `parameters_from_data`** (default: not) — whatever `shocks_from_data` is, and
+whatever the databox holds under the parameter's name -/
+theorem parameter_cell (pfd sfd : Option Bool) (m d : V β) :
+    initialCell .parameter pfd sfd m d = (if pfd = some true then (if d.isNan then m else d) else m) := by
+  rcases pfd with _ | _ | _ <;> rfl
+
+/-- **residuals come from the databox iff `shocks_from_data`** (default: they do; missing ones are 0) — whatever
+`parameters_from_data` is -/
+theorem residual_cell (pfd sfd : Option Bool) (m d : V β) :
+    initialCell .residual pfd sfd m d
+      = (if sfd = some false then V.fin (Carrier.ofNat 0) else (if d.isNan then V.fin (Carrier.ofNat 0) else d)) := by
+  rcases sfd with _ | _ | _ <;> rfl
+
+/-- the two options act independently, and variables are never touched by either -/
+theorem data_source_options_independent (pfd pfd' sfd sfd' : Option Bool) (m d : V β) :
+    initialCell .parameter pfd sfd m d = initialCell .parameter pfd sfd' m d
+      ∧ initialCell .residual pfd sfd m d = initialCell .residual pfd' sfd m d
+      ∧ initialCell .variable pfd sfd m d = d := by
+  refine ⟨?_, ?_, rfl⟩
+  · rw [parameter_cell, parameter_cell]
+  · rw [residual_cell, residual_cell]
+
+end options
+
+/-- non-vacuity, all nine combinations of (absent / False / True)²: a databox item 2 named like a parameter whose model value
+is 1 is used only under `parameters_from_data=True`; an input residual 3 only unless `shocks_from_data=False` -/
+example : ∀ pfd ∈ [none, some false, some true], ∀ sfd ∈ [none, some false, some true],
+    (initialCell .parameter pfd sfd (V.fin (1 : ℚ)) (V.fin 2) = V.fin 2 ↔ pfd = some true)
+      ∧ (initialCell .residual pfd sfd V.nan (V.fin (3 : ℚ)) = V.fin 3 ↔ sfd ≠ some false) := by
+  intro pfd hp sfd hs
+  simp only [List.mem_cons, List.not_mem_nil, or_false] at hp hs
+  rcases hp with rfl | rfl | rfl <;> rcases hs with rfl | rfl | rfl <;>
+    simp [initialCell, resolveFlag, fallbackCell, V.isNan, Explanatory.parametersFromDataDefault,
+      Explanatory.shocksFromDataDefault, Carrier.ofNat]
 
 end IrisVerif.C17
